@@ -99,6 +99,12 @@ NAMES_SOURCE = (
     "Zone\tTest/A-B\t4:00\t-\t+04\n"
     "Zone\tTest/A_B_C\t6:00\t-\t+06\n"
     "Zone\tNOSLASH\t3:07\t-\tLMT\t1985\n\t\t\t3:00\t-\tMSK\n"
+    # names whose djb2 value is 0, 1, 0x7fffffff, 0x80000000 and 0xffffffff (constructed by meet-in-the-middle; run() re-checks them)
+    "Zone\tPacific/Erjseket\t10:00\t-\t+10\n"
+    "Zone\tTest/Zdfxirrd\t10:30\t-\t+1030\n"
+    "Zone\tTest/Zlqclaxl\t11:00\t-\t+11\n"
+    "Zone\tTest/Zlqclaxm\t11:30\t-\t+1130\n"
+    "Zone\tTest/Zxegbkfz\t12:00\t-\t+12\n"
     "Link\tEtc/GMT+5\tTest/FiveWest\n"
     "Link\tEtc/GMT-5\tTest/FiveEast\n"
     "Link\tEtc/GMT\tTest/Zero+Plus\n"
@@ -113,7 +119,8 @@ NAMES_SOURCE = (
 def run(ctx):
     ctx.assumptions = ["independent djb2 (h = h*33 + c mod 2^32 from 5381), checked against the literals in tools/tests/test_transformer.py",
                        "baseline /verif/baselines/zone_ids.tsv records the ids published in the shipped 1.2.1 tables ('earlier releases')"]
-    for s, v in (("", 5381), ("a", 177670), ("ab", 5863208), ("abcde", 252819604)):
+    for s, v in (("", 5381), ("a", 177670), ("ab", 5863208), ("abcde", 252819604), ("Pacific/Erjseket", 0), ("Test/Zdfxirrd", 1),
+                 ("Test/Zlqclaxl", 0x7FFFFFFF), ("Test/Zlqclaxm", 0x80000000), ("Test/Zxegbkfz", 0xFFFFFFFF)):
         if djb2(s) != v:
             raise vt.HarnessError("harness djb2 wrong")
     from tzdb import transformer as T
@@ -161,6 +168,11 @@ def run(ctx):
     for n, d in ids.items():
         if len(set(d.values())) > 1:
             ctx.violation("id-differs-across-db:" + n, {"zone": n, "ids": d}, "%s has different ids in zonedb and zonedbx: %r" % (n, d))
+    # boundary values of the hash
+    for n in ("Pacific/Erjseket", "Test/Zdfxirrd", "Test/Zlqclaxl", "Test/Zlqclaxm", "Test/Zxegbkfz", ""):
+        ctx.evaluations += 1
+        if T.hash_name(n) != djb2(n):
+            ctx.violation("hash_name-boundary:" + (n or "empty"), {"name": n}, "hash_name(%r) = 0x%08x, djb2 = 0x%08x" % (n, T.hash_name(n), djb2(n)))
     # every baseline name still has its id wherever it is still shipped
     for n, v in baseline.items():
         ctx.evaluations += 1
